@@ -457,6 +457,10 @@ func (r *renderer) stmt(s Stmt) {
 		} else {
 			r.sb.WriteString("\n")
 		}
+	case *Raw:
+		for _, l := range s.Lines {
+			r.sb.WriteString(strings.Repeat("    ", r.depth) + l + "\n")
+		}
 	case *Decl:
 		if s.Typed {
 			r.line(s.Name + ":" + s.Ty.String())
